@@ -3,6 +3,7 @@ package main
 // C13: Search on a finished Dawg with real searchers wrapped by a recording Searcher.
 
 import (
+	"fmt"
 	"math/rand"
 	"reflect"
 
@@ -52,11 +53,11 @@ func (r *recSearcher) Chosen() {
 	r.calls = append(r.calls, protoCall{"C", 0, false})
 }
 
-func mkSearcher(s searchIn) dawg.Searcher {
+func mkSearcher(s searchIn, arg []byte) dawg.Searcher {
 	if s.Kind == "pattern" {
-		return dawg.NewPatternSearcher(i2b(s.Arg), byte(s.Blank))
+		return dawg.NewPatternSearcher(arg, byte(s.Blank))
 	}
-	return dawg.NewAnagramSearcher(i2b(s.Arg), byte(s.Blank))
+	return dawg.NewAnagramSearcher(arg, byte(s.Blank))
 }
 
 func sols(s [][]byte) [][]int {
@@ -70,8 +71,14 @@ func sols(s [][]byte) [][]int {
 func runSearch(w *tr.W, d *dawg.Dawg, ss []searchIn) {
 	recs := make([]*recSearcher, len(ss))
 	srch := make([]dawg.Searcher, len(ss))
+	// searchers built from equal arguments get the SAME byte slice (a rack used both as pattern and as anagram): the constructors only read it
+	shared := map[string][]byte{}
 	for i, s := range ss {
-		recs[i] = &recSearcher{inner: mkSearcher(s)}
+		k := fmt.Sprint(s.Arg)
+		if _, ok := shared[k]; !ok {
+			shared[k] = i2b(s.Arg)
+		}
+		recs[i] = &recSearcher{inner: mkSearcher(s, shared[k])}
 		srch[i] = recs[i]
 	}
 	before := nodeTable(d)
@@ -89,6 +96,12 @@ func runSearch(w *tr.W, d *dawg.Dawg, ss []searchIn) {
 		s2, i2 = d.Search(srch...) // same searcher objects again
 	})
 	same := reflect.DeepEqual(before, nodeTable(d))
+	argsSame := true
+	for _, s := range ss {
+		if !reflect.DeepEqual(b2i(shared[fmt.Sprint(s.Arg)]), append([]int{}, s.Arg...)) && len(s.Arg) > 0 {
+			argsSame = false
+		}
+	}
 	total := 0
 	for _, p := range proto {
 		total += len(p)
@@ -105,7 +118,7 @@ func runSearch(w *tr.W, d *dawg.Dawg, ss []searchIn) {
 	if i2 == nil {
 		i2 = []int{}
 	}
-	w.Emit(tr.E{"ev": "Search", "res": res, "srch": ss, "sol": sols(s1), "ids": i1, "sol2": sols(s2), "ids2": i2, "dawg_same": same, "proto": proto})
+	w.Emit(tr.E{"ev": "Search", "res": res, "srch": ss, "sol": sols(s1), "ids": i1, "sol2": sols(s2), "ids2": i2, "dawg_same": same, "args_same": argsSame, "proto": proto})
 }
 
 func randArg(r *rand.Rand, alpha []int, maxLen int) []int {
@@ -152,6 +165,7 @@ func searchFamilies(c *Ctx, fams []dawgIn) []dawgIn {
 					ss = append(ss, []searchIn{{Kind: "anagram", Arg: a, Blank: 63}, {Kind: "anagram", Arg: a, Blank: 122}})
 				case 4:
 					ss = append(ss, []searchIn{{Kind: "anagram", Arg: a, Blank: 63}})
+					ss = append(ss, []searchIn{{Kind: "pattern", Arg: a, Blank: 63}, {Kind: "anagram", Arg: a, Blank: 63}}) // one rack, both searchers
 				default:
 					ss = append(ss, []searchIn{{Kind: "pattern", Arg: a, Blank: 63}})
 				}
@@ -188,6 +202,23 @@ func searchFamilies(c *Ctx, fams []dawgIn) []dawgIn {
 			in.Probes = nil
 			out = append(out, in)
 		}
+	}
+	// one letter repeated a few hundred times (letter budgets beyond one byte)
+	{
+		rep := func(n int) []int {
+			w := make([]int, n)
+			for i := range w {
+				w[i] = 97
+			}
+			return w
+		}
+		adds := [][]int{rep(3), rep(255), rep(256), rep(257), rep(300)}
+		var ss [][]searchIn
+		for _, n := range []int{255, 256, 257, 300} {
+			ss = append(ss, []searchIn{{Kind: "anagram", Arg: rep(n), Blank: 63}}, []searchIn{{Kind: "anagram", Arg: append(rep(n-1), 63), Blank: 63}},
+				[]searchIn{{Kind: "pattern", Arg: append(rep(n-1), 63), Blank: 63}})
+		}
+		out = append(out, dawgIn{Name: "longrep", Adds: adds, Searches: ss})
 	}
 	return out
 }
